@@ -19,7 +19,18 @@ COMPILE_PATH = ("chameleon.parser", "chameleon.program",
 
 # str methods that Token does not override: the result is a plain str and the
 # position is lost (TemplateError then reports offset 0)
-PLAIN_METHODS = {"lower", "upper", "title", "capitalize", "casefold",
+# reaching definitions that lose the position but cannot reach the raise
+PLAIN_REVIEWED = {
+    ("chameleon.tales.TalesExpr.__call__", "ExpressionError", "remaining"):
+        (("const",), "remaining = '' is assigned only after an assignment "
+                     "was appended; the raise is guarded by 'not "
+                     "assignments'"),
+    ("chameleon.i18n.parse_attributes", "CompilationError", "attr"):
+        (("method:lower",), "attr.lower() runs only under 'not xml' and "
+                            "every caller uses the default xml=True"),
+}
+
+PLAIN_METHODS = {"group", "lower", "upper", "title", "capitalize", "casefold",
                  "swapcase", "rsplit", "partition", "rpartition", "join",
                  "format", "center", "ljust", "rjust", "zfill", "expandtabs",
                  "translate", "encode", "splitlines", "removeprefix",
@@ -606,7 +617,15 @@ def _raise_sites(repo, rep, split_ok):
             # position lost: only if *every* reaching definition loses it
             # (flow-insensitive chains may include infeasible definitions)
             plain = [is_plain(st) for st in chains]
-            all_plain = all(plain)
+            # position lost: if ANY reaching definition loses it -- except
+            # the reviewed ones below (definitions that cannot reach the
+            # raise, one line of reason each)
+            excused = PLAIN_REVIEWED.get((f.qualname, src(r.exc.func),
+                                          src(tok)))
+            if excused is not None:
+                plain = [pl for pl in plain if not (
+                    pl and set(pl) <= set(excused[0]))]
+            all_plain = any(plain) or not plain
             drift = [d for d in (is_drift(st) for st in chains) if d]
             key = "%s(%s)" % (src(r.exc.func), src(tok)[:40])
             shown = " | ".join(" <- ".join(st) for st in chains[:3])
@@ -614,8 +633,9 @@ def _raise_sites(repo, rep, split_ok):
                       "the token of %s keeps a source position (chains: %s)"
                       % (key, shown),
                       construct="plain:" + key, where=wh,
-                      detail="every definition passes %s: a plain str, the "
-                             "error is reported at offset 0" % plain[:2])
+                      detail="a definition passes %s: a plain str, the "
+                             "error is reported at offset 0" % [
+                                 pl for pl in plain if pl][:2])
             rep.check(not drift, "R11.2", site,
                       "the token of %s is derived by position-faithful steps "
                       "only (chains: %s)" % (key, shown),
